@@ -232,7 +232,7 @@ def replay_parallel(obl, model):
             d = np.zeros((3 * max(npart, 1) + 3, 4, 4))
             try:
                 _tsc_parallel.py_func(P, starts, d, 1.0, w, 0.0)
-            except IndexError as ex:
+            except (IndexError, SystemError) as ex:       # bounds check inside a parallel kernel surfaces as SystemError
                 return True, f'_tsc_parallel npartition={npart} starts={starts.tolist()}: out-of-bounds access {ex}'
             if abs(d.sum() - n) > 1e-9:
                 return True, f'_tsc_parallel npartition={npart}: deposited {d.sum()} of {n} particles'
